@@ -15,6 +15,9 @@ a behaviour-preserving patch must leave Generated.v byte-identical, a list of on
 """
 import json, os, re, sys, hashlib
 
+sys.path.insert(0, os.path.dirname(os.path.abspath(__file__)))
+import rsx  # noqa: E402  (the small Rust reader / evaluator, DESIGN.md §13 round 2)
+
 REPO = os.environ.get("VERIF_REPO", "/repo")
 HERE = os.path.dirname(os.path.abspath(__file__))
 # VERIF_GEN_OUT=<dir> redirects both outputs (used by tools/translator_selftest.py, which must not disturb the tree)
@@ -680,7 +683,17 @@ def byte_set(expr, var=None, src="", _depth=1, body=""):
             return set(byte_set(fb, ps[0], src, _depth - 1, body=fb))
         raise ValueError("byte predicate not understood: %r" % e[:80])
 
-    return frozenset(ev(expr))
+    try:
+        return frozenset(ev(expr))
+    except (ValueError, KeyError) as first:
+        # not one of the spellings above: evaluate the expression for every byte (if / match / helpers at any depth)
+        v = st["var"] or var
+        if v is None:
+            raise
+        try:
+            return eval_set(expr, v, src, scopes=[body] if body else ())
+        except (ValueError, rsx.Unknown, KeyError):
+            raise first
 
 
 def ordered(vals, house=()):
@@ -848,7 +861,14 @@ def range_arms(fnbody, param=None):
 
 
 def pred_fn_set(src, name):
-    """the set of bytes accepted by the one-parameter predicate `fn name(b: u8) -> bool` of src"""
+    """the set of bytes accepted by the one-parameter predicate `fn name(b: u8) -> bool` of src (tabulated; the reader of
+    round 1 is the fallback for bodies the evaluator refuses)"""
+    try:
+        t = fn_table(src, name)
+        if all(o.how == "value" and isinstance(o.value, bool) and not o.effects for o in t.values()):
+            return frozenset(k for k, o in t.items() if o.value)
+    except (ValueError, KeyError, rsx.Unknown):
+        pass
     b = fn_body(src, name)
     (v,) = fn_params(src, name)
     return byte_set(b, v, src, body=b)
@@ -869,28 +889,6 @@ def option_pred_set(body, src=""):
     if method == "filter" and not re.search(r"\.is_some\(\)", body):
         raise ValueError(".filter(..) without .is_some()")
     return byte_set(expr, closure_var(params), src, body=body)
-
-
-def hex_nibble_tables(b):
-    """HexStringLexer::next_hex_byte: for every `match <c> { LO..=HI => c - LO + ADD, … }`: ([(lo, hi, add)], [(END literal,
-    arm expression)] of the single-literal arms, name of c)"""
-    out = []
-    for m in re.finditer(r"\bmatch\s+(\w+)\s*\{", b):
-        o = m.end() - 1
-        rows, singles = [], []
-        for arm in match_arms(b[o + 1:close_of(b, o)]):
-            mm = re.fullmatch(r"(" + BYTE + r")\s*\.\.=\s*(" + BYTE + r")", arm.pattern)
-            if mm and arm.guard is None:
-                lo = int_value(mm.group(1))
-                add = affine(arm.expr, m.group(1)) + lo
-                if add < 0:
-                    raise ValueError("arm subtracts more than its range start")
-                rows.append((lo, int_value(mm.group(2)), add))
-            elif re.fullmatch(BYTE, arm.pattern) and arm.guard is None:
-                singles.append((int_value(arm.pattern), arm.expr))
-        if rows:
-            out.append((rows, singles, m.group(1)))
-    return out
 
 
 def variant_name(pat):
@@ -940,6 +938,106 @@ def variant_pred(expr, variants):
     raise ValueError("variant predicate not understood: %r" % e[:60])
 
 
+# ---- evaluation (gen/rsx.py): tabulate small functions instead of reading how they are written ------------------------------
+
+def _self_module():
+    return sys.modules[__name__]
+
+
+def tabulate(code, var, src, scopes=(), domain=range(256), is_expr=True, env=None):
+    """{v: rsx.Outcome} of running `code` (an expression, or the inside of a block) with `var` bound to each v of domain;
+    fns and consts are looked up in scopes (innermost first) and src.  Raises ValueError when a decision depends on
+    something that cannot be evaluated."""
+    out = {}
+    for v in domain:
+        e = dict(env or {})
+        e[var] = v
+        try:
+            out[v] = rsx.run(_self_module(), code, e, src, scopes=list(scopes), is_expr=is_expr)
+        except rsx.Unknown as ex:
+            raise ValueError("cannot evaluate for %s = %r: %s" % (var, v, ex))
+    return out
+
+
+def fn_table(src, name, domain=range(256), scopes=()):
+    """{v: Outcome} of the one-parameter fn `name` of src over domain (helpers it calls are followed, any depth)"""
+    (v,) = fn_params(src, name)
+    body = fn_body(src, name)
+    t = tabulate(body, v, src, scopes=[body] + list(scopes), domain=domain, is_expr=False)
+    for o in t.values():
+        if o.how == "return":
+            o.how = "value"
+    return t
+
+
+def value_runs(values):
+    """{byte: int} -> [(lo, hi, value at lo)] : maximal runs of consecutive bytes on which value - byte is constant"""
+    rows, run = [], None
+    for b in sorted(values):
+        v = values[b]
+        if run and b == run[1] + 1 and v - b == run[2] - run[0]:
+            run[1] = b
+        else:
+            if run:
+                rows.append(tuple(run))
+            run = [b, b, v]
+    if run:
+        rows.append(tuple(run))
+    return rows
+
+
+def option_int_values(table):
+    """{b: v} for the inputs on which the outcome is Some(v) / Ok(v) / a plain integer v"""
+    out = {}
+    for b, o in table.items():
+        v = o.value
+        if o.how != "value":
+            continue
+        if isinstance(v, tuple) and v and v[0] in ("Some", "Ok") and isinstance(v[1], int) and not isinstance(v[1], bool):
+            out[b] = v[1]
+        elif isinstance(v, int) and not isinstance(v, bool):
+            out[b] = v
+    return out
+
+
+def eval_set(expr, var, src, scopes=(), domain=range(256), env=None):
+    """the set of v in domain for which the boolean expression holds — by evaluation (helpers followed to any depth,
+    `if`/`match`/`matches!`/closures/Option combinators understood)"""
+    t = tabulate(expr, var, src, scopes=scopes, domain=domain, env=env)
+    out = set()
+    for v, o in t.items():
+        if o.how != "value" or not isinstance(o.value, bool):
+            raise ValueError("not a boolean for %s = %r: %r" % (var, v, o))
+        if o.value:
+            out.add(v)
+    return frozenset(out)
+
+
+def hex_nibble_tables(b, src):
+    """HexStringLexer::next_hex_byte: for every byte c read with next_non_whitespace_char()?, the expression that turns it into
+    a nibble is TABULATED over the 256 bytes (so a digit-value helper fn, a tuple match, reordered arms or an if-chain give the
+    same result): [(rows [(lo, hi, value at lo)] of the digit bytes, {byte: Outcome} of the bytes that are not plain digits,
+    name of c)]"""
+    names = re.findall(r"let\s+(\w+)\s*(?::\s*u8)?\s*=\s*self\.next_non_whitespace_char\(\)\?\s*;", b)
+    env = {n: rsx.Opaque(n) for n in names}
+    out = []
+    for n in names:
+        at = re.search(r"let\s+" + n + r"\b", b).end()
+        init = None
+        for m in re.finditer(r"let\s+(?:mut\s+)?(\w+)\s*(?::\s*\w+)?\s*=\s*(?=match\b|if\b)", b[at:]):
+            cand = let_expr(b[at + m.start():], m.group(1))
+            if cand and re.search(r"\b" + n + r"\b", cand.split("{")[0]):
+                init = cand
+                break
+        if init is None:
+            raise ValueError("no nibble computed from " + n)
+        t = tabulate(init, n, src, scopes=[b], env=env)
+        digits = {k: o.value for k, o in t.items()
+                  if o.how == "value" and not o.effects and isinstance(o.value, int) and not isinstance(o.value, bool)}
+        out.append((value_runs(digits), {k: o for k, o in t.items() if k not in digits}, n))
+    return out
+
+
 class Gen:
     def __init__(self):
         self.defs = []      # (name, coq type, coq term, anchor)
@@ -984,16 +1082,16 @@ def main():
 
     # ---- enc.rs ------------------------------------------------------------
     def nibble():
-        # arms  v @ LO ..= HI => Some(v - LO + ADD): (lo, hi, add)
-        out = [(lo, hi, k + lo) for lo, hi, k in range_arms(fn_body(enc, "decode_nibble"))]
-        if not out or any(add < 0 for _, _, add in out):
-            raise ValueError("no arms / an arm subtracts more than its range start")
+        # decode_nibble tabulated over the 256 bytes: rows (lo, hi, value at lo) of the digit runs
+        out = value_runs(option_int_values({k: o for k, o in fn_table(enc, "decode_nibble").items() if not o.effects}))
+        if not out:
+            raise ValueError("no digits")
         return ctuples(ordered_by_key(out, [48, 97, 65]))
     g.attempt([("nibble_ranges", "list (N * N * N)")], "enc.rs:decode_nibble", nibble)
 
     def enc_nibble():
-        # arms  LO ..= HI => BASE + c: our table computes c - lo + b0 with b0 = BASE + lo
-        out = [(lo, hi, k + lo) for lo, hi, k in range_arms(fn_body(enc, "encode_nibble"))]
+        # encode_nibble tabulated: rows (lo, hi, byte written for lo)
+        out = value_runs(option_int_values({k: o for k, o in fn_table(enc, "encode_nibble").items() if not o.effects}))
         if not out:
             raise ValueError("no arms")
         return ctuples(ordered_by_key(out))
@@ -1016,8 +1114,8 @@ def main():
     g.attempt([("hexfilter_ws", "list N"), ("hex_eod", "N")], "enc.rs:decode_hex", hexws)
 
     def sym85():
-        (lo, hi, k), = range_arms(fn_body(enc, "sym_85"))
-        if k != -lo:
+        (lo, hi, v0), = value_runs(option_int_values({k: o for k, o in fn_table(enc, "sym_85").items() if not o.effects}))
+        if v0 != 0:
             raise ValueError("sym_85 offset differs from range start")
         return str(lo), str(hi)
     g.attempt([("sym85_lo", "N"), ("sym85_hi", "N")], "enc.rs:sym_85", sym85)
